@@ -166,6 +166,15 @@ fn translate_block(
         // slot, return. We always want to have enough bytes to handle a delay
         // slot.
         if offset >= bytes.len() {
+            // a branch whose delay slot lies outside of these bytes cannot be
+            // lifted: its successors are already recorded, and a fall-through
+            // successor next to them would enable two successors at once
+            if !matches!(branch_delay, TranslateBranchDelay::None) {
+                return Err(Error::Custom(format!(
+                    "No bytes for the branch delay slot at 0x{:x}",
+                    address.wrapping_add(offset as u64)
+                )));
+            }
             successors.push((address + offset as u64, None));
             break;
         }
@@ -489,6 +498,15 @@ fn translate_block(
                 | capstone::mips_insn::MIPS_INS_JAL
                 | capstone::mips_insn::MIPS_INS_JALR
                 | capstone::mips_insn::MIPS_INS_JR => {
+                    // a branch in a branch delay slot is UNPREDICTABLE in the
+                    // architecture; lifting both would record the successors
+                    // of both branches
+                    if !matches!(branch_delay, TranslateBranchDelay::None) {
+                        return Err(Error::Custom(format!(
+                            "Branch in a branch delay slot at 0x{:x}",
+                            instruction.address
+                        )));
+                    }
                     if bytes.len() == DEFAULT_TRANSLATION_BLOCK_BYTES && offset + 8 >= bytes.len() {
                         successors.push((address + offset as u64, None));
                         break;
